@@ -944,3 +944,126 @@ Section ScramObjProofs.
     intros [= <- <-]. reflexivity.
   Qed.
 End ScramObjProofs.
+
+(* ---------------------------------------------------------------------------------------------- *)
+(* Mutual authentication through the session: the gate of _SessionShim.onWelcome in front of on_welcome *)
+Lemma mem_str_In m l : mem_str m l = true <-> In m l.
+Proof.
+  induction l as [|x r IH]; cbn; [split; [discriminate|tauto]|].
+  rewrite orb_true_iff, IH, list_eqb_eq. split; intros [H|H]; auto.
+Qed.
+
+(* the full-strength statement: a session with authenticators configured (none of them anonymous) joins only if
+   the WELCOME names a configured authmethod and that authenticator's on_welcome ran and accepted *)
+Definition session_join_implies_verified (strict : bool) : Prop :=
+  forall (HMAC256 : bytes -> bytes -> bytes) names o authmethod ax,
+    mem_str (lit "anonymous") names = false -> mem_str (lit "anonymous-proxy") names = false ->
+    session_on_welcome HMAC256 strict (Some names) o authmethod ax = Joined ->
+    exists m, authmethod = Some m /\ In m names /\ authenticator_on_welcome HMAC256 o m ax = Ok Accept.
+
+Section SessionProofs.
+  Variable HMAC256 : bytes -> bytes -> bytes.
+
+  Lemma session_joined_iff strict configured o authmethod ax :
+    session_on_welcome HMAC256 strict configured o authmethod ax = Joined <->
+    shim_welcome_gate strict configured authmethod = GateSkip \/
+    exists m, shim_welcome_gate strict configured authmethod = GateRun m /\
+              authenticator_on_welcome HMAC256 o m ax = Ok Accept.
+  Proof.
+    unfold session_on_welcome. destruct (shim_welcome_gate strict configured authmethod) as [| | |m].
+    - split; [now left|reflexivity].
+    - split; [discriminate|]. intros [H|(m & H & _)]; discriminate.
+    - split; [discriminate|]. intros [H|(m & H & _)]; discriminate.
+    - destruct (authenticator_on_welcome HMAC256 o m ax) as [[|]|e] eqn:E.
+      + split; [intros _; right; now exists m|reflexivity].
+      + split; [discriminate|]. intros [H|(m' & [= <-] & H)]; [discriminate|]. rewrite E in H. discriminate.
+      + split; [discriminate|]. intros [H|(m' & [= <-] & H)]; [discriminate|]. rewrite E in H. discriminate.
+  Qed.
+
+  Lemma gate_run_inv strict names authmethod m :
+    shim_welcome_gate strict (Some names) authmethod = GateRun m -> authmethod = Some m /\ In m names.
+  Proof.
+    unfold shim_welcome_gate. destruct authmethod as [m'|].
+    - destruct (mem_str m' names) eqn:E; [|discriminate]. intros [= <-]. split; [reflexivity|now apply mem_str_In].
+    - destruct strict; [destruct (_ || _)|]; discriminate.
+  Qed.
+
+  (* the only way past the gate without an authenticator: WELCOME without authmethod, and only if the gate is the
+     lenient one or an anonymous authenticator is configured *)
+  Lemma gate_skip_inv strict names authmethod :
+    shim_welcome_gate strict (Some names) authmethod = GateSkip ->
+    authmethod = None /\
+    (strict = false \/ mem_str (lit "anonymous") names = true \/ mem_str (lit "anonymous-proxy") names = true).
+  Proof.
+    unfold shim_welcome_gate. destruct authmethod as [m'|].
+    - destruct (mem_str m' names); discriminate.
+    - destruct strict; [|intros _; split; [reflexivity|now left]].
+      destruct (mem_str (lit "anonymous") names) eqn:E1; [intros _; split; [reflexivity|right; now left]|].
+      destruct (mem_str (lit "anonymous-proxy") names) eqn:E2; [intros _; split; [reflexivity|right; now right]|].
+      cbn. discriminate.
+  Qed.
+
+  (* scram: what "on_welcome ran and accepted" means for the WELCOME and the object *)
+  Lemma scram_session_accept_inv o ax :
+    scram_session_on_welcome HMAC256 o ax = Ok Accept <->
+    exists v sp am, ax = AxDict (Some (SvText v)) /\ so_sp o = Some sp /\ so_am o = Some am /\
+                    b64decode v = Ok (rfc5802_server_signature HMAC256 (rfc5802_server_key HMAC256 sp) am).
+  Proof.
+    split.
+    - destruct ax as [|[[v|]|]]; cbn [scram_session_on_welcome]; try discriminate.
+      intros H. apply scram_obj_welcome_spec in H as (sp & am & s & Hs & Ha & [= <-] & Hd). now exists v, sp, am.
+    - intros (v & sp & am & -> & Hs & Ha & Hd). cbn [scram_session_on_welcome].
+      apply scram_obj_welcome_spec. now exists sp, am, v.
+  Qed.
+End SessionProofs.
+
+Lemma session_join_verified_strict : session_join_implies_verified true.
+Proof.
+  intros HMAC256 names o authmethod ax Ha Hp Hj.
+  apply session_joined_iff in Hj as [Hs | (m & Hg & Hacc)].
+  - apply gate_skip_inv in Hs as (_ & [H | [H | H]]); congruence.
+  - apply gate_run_inv in Hg as (-> & Hin). now exists m.
+Qed.
+
+(* the gate as it stands in protocol.py (lenient): refuted by WELCOME without authmethod on a fresh scram-only session *)
+Lemma session_join_verified_lenient_refuted : ~ session_join_implies_verified false.
+Proof.
+  intros Hall.
+  destruct (Hall (toy_mac 32) [lit "scram"] scram_fresh None AxAbsent eq_refl eq_refl eq_refl) as (m & Hm & _).
+  discriminate.
+Qed.
+
+(* what does hold of the lenient gate *)
+Lemma session_join_lenient_partial (HMAC256 : bytes -> bytes -> bytes) names o authmethod ax :
+  session_on_welcome HMAC256 false (Some names) o authmethod ax = Joined ->
+  authmethod = None \/
+  exists m, authmethod = Some m /\ In m names /\ authenticator_on_welcome HMAC256 o m ax = Ok Accept.
+Proof.
+  intros Hj. apply session_joined_iff in Hj as [Hs | (m & Hg & Hacc)].
+  - left. now apply gate_skip_inv in Hs as (-> & _).
+  - right. apply gate_run_inv in Hg as (-> & Hin). now exists m.
+Qed.
+
+(* scram-only session, end to end over histories: it joins only on WELCOME(authmethod="scram") whose authextra carries
+   text decoding to HMAC (HMAC salted "Server Key") AuthMessage of a state whose salted password came out of a
+   completed CHALLENGE of the same history *)
+Lemma session_scram_only_mutual
+      (H256 : bytes -> bytes) (HMAC256 : bytes -> bytes -> bytes) (PBKDF2 ARGON2ID : bytes -> bytes -> N -> N -> result bytes)
+      (SASLPREP : str -> result str) (REPR_BYTES : bytes -> str) ds password authid ops o' outs authmethod ax :
+  scram_obj_run H256 HMAC256 PBKDF2 ARGON2ID SASLPREP REPR_BYTES ds password authid scram_fresh ops = (o', outs) ->
+  session_on_welcome HMAC256 true (Some [lit "scram"]) o' authmethod ax = Joined ->
+  authmethod = Some (lit "scram") /\
+  exists x pw sp am v,
+    In (OpChallenge x) ops /\ utf8_encode password = Ok pw /\ scram_kdf PBKDF2 ARGON2ID ds pw x = Ok sp /\
+    so_sp o' = Some sp /\ so_am o' = Some am /\ ax = AxDict (Some (SvText v)) /\
+    b64decode v = Ok (rfc5802_server_signature HMAC256 (rfc5802_server_key HMAC256 sp) am).
+Proof.
+  intros Hr Hj.
+  destruct (session_join_verified_strict HMAC256 [lit "scram"] o' authmethod ax eq_refl eq_refl Hj) as (m & -> & Hin & Hacc).
+  destruct Hin as [<-|[]]. split; [reflexivity|].
+  unfold authenticator_on_welcome in Hacc. rewrite list_eqb_refl in Hacc.
+  apply scram_session_accept_inv in Hacc as (v & sp & am & -> & Hs & Ha & Hd).
+  assert (scram_obj_on_welcome HMAC256 o' (Some v) = Ok Accept) as Hw by (apply scram_obj_welcome_spec; now exists sp, am, v).
+  destruct (scram_history_mutual _ _ _ _ _ _ _ _ _ _ _ _ _ Hr Hw) as (x & pw & sp' & am' & s & Hin & Hpw & Hk & Hs' & Ha' & [= <-] & Hd').
+  exists x, pw, sp', am', v. repeat split; assumption.
+Qed.
